@@ -44,12 +44,12 @@ def check(run, views, tier):
                        "%s:%s" % (imp["file"], imp["line"]), key="R-GUARD|drop-impl|%s" % imp["self"])
         from .c15 import check_alloc
         check_alloc(run, F)          # abort by memory exhaustion: constant pre-allocations per token stay within budget
-        run.floor("R-GUARD", n_fn, 30, "functions in the parse/inspect cones")
-        run.floor("R-GUARD", counts.get("buffer-read", 0), 19, "fixed-width buffer reads")
+        run.floor("R-GUARD", n_fn, 15, "functions in the parse/inspect cones")
+        run.floor("R-GUARD", counts.get("buffer-read", 0), 8, "fixed-width buffer reads")
         run.floor("R-GUARD", counts.get("vec-index", 0), 1, "guarded Vec::remove")
         gr.r_norec(run, F, g, parse_cone)
         ni, no = gr.r_loop(run, F, g, bodies, inspect_cone)
-        run.floor("R-LOOP", ni, 5, "iterator loops")
+        run.floor("R-LOOP", ni, 2, "iterator loops")
         rr.r_stop_onlyexit(run, F)      # contributes the drive-loop progress clause (R-LOOP) and the exits
         rr.r_dispatch(run, F)
         rr.r_readexact(run, F)
